@@ -379,7 +379,39 @@ def word_name_lists():
                  "VID:PID=04D8:FD92", "lab (COM3)", "a,b"):
         for style in ("descr", "ser", "snr", "ser_end"):
             out.append((style, name))
-    return out
+    # ... and like something the serial layer itself understands: every short string literal in
+    # pyserial's port and enumeration modules (the Windows device prefix, COM, LPT, /dev/tty...,
+    # USB, ...) put in front of a name
+    for prefix in pyserial_words():
+        name = (prefix.rstrip("*") + "Bot")[:16]
+        for style in ("descr", "ser", "snr", "ser_end"):
+            out.append((style, name))
+        if len(prefix) >= 3:
+            out.append(("descr", prefix[:16]))
+    return list(dict.fromkeys(out))
+
+
+def pyserial_words():
+    import ast                              # pylint: disable=import-outside-toplevel
+    import importlib.util                   # pylint: disable=import-outside-toplevel
+    found = set()
+    for modname in ("serial.serialwin32", "serial.serialposix", "serial.serialutil",
+                    "serial.tools.list_ports_windows", "serial.tools.list_ports_posix",
+                    "serial.tools.list_ports_linux", "serial.tools.list_ports_osx",
+                    "serial.tools.list_ports_common"):
+        try:
+            spec = importlib.util.find_spec(modname)
+            with open(spec.origin, encoding="utf-8") as handle:
+                tree = ast.parse(handle.read())
+        except (ImportError, OSError, SyntaxError, AttributeError, ValueError):
+            continue
+        for node in ast.walk(tree):
+            if isinstance(node, ast.Constant) and isinstance(node.value, str) and \
+                    1 <= len(node.value) <= 12 and node.value.isascii() and \
+                    node.value.isprintable() and "{" not in node.value and \
+                    node.value.strip() == node.value and "," not in node.value:
+                found.add(node.value)
+    return sorted(found)
 
 
 def _names_chunk(items):
